@@ -1,5 +1,6 @@
 """Verdicts, known findings, evidence files."""
 import json
+import re
 import os
 import time
 
@@ -107,14 +108,23 @@ def finish(prop, tier, results, t0, level="other", extra=None, configs=None):
         for e in r.errors:
             errors.append((r.rule, e))
         for f in r.findings:
+            # a per-configuration run prefixes the construct with "[config] "; the finding is the same source construct
+            bare = re.sub(r"^(\S+ )\[[\w+\-]+\] ", r"\1", f.key)
             if f.key in known_p:
                 known_hits.append((f, known_p[f.key]))
+            elif bare in known_p:
+                known_hits.append((f, known_p[bare]))
             else:
                 violations.append((r, f))
 
     n = 0
+    printed = set()
     for f, what in known_hits:
-        print("KNOWN-FINDING: property=%s %s :: %s" % (prop, f.key, what))
+        bare = re.sub(r"^(\S+ )\[[\w+\-]+\] ", r"\1", f.key)
+        if bare in printed:
+            continue
+        printed.add(bare)
+        print("KNOWN-FINDING: property=%s %s :: %s" % (prop, bare, what))
     for r, f in violations:
         n += 1
         path = os.path.join(vdir, "%s-%d.json" % (prop, n))
